@@ -726,6 +726,21 @@ class Gen(object):
                                               atom(z3.Select(out.isub, k) == z3.Select(l.isub, lo + k)))))
         return out
 
+    def splice(self, l, s, val, path):
+        """l[lo:hi] = val on a flat list: the elements before lo, then val, then the elements from max(lo, hi) on."""
+        lo, hi = self.slice_bounds(l, s, path)
+        hi = z3.simplify(z3.If(hi >= lo, hi, lo))
+        out = fresh_list('splice', l.et, fresh('splice_len', I))
+        path.hyps.append(atom(out.ln == l.ln - (hi - lo) + val.ln))
+        k = z3.Int('k?')
+        path.hyps.append(('forall', [k], ('implies', atom(z3.And(0 <= k, k < lo)),
+                                          atom(z3.Select(out.arr, k) == z3.Select(l.arr, k)))))
+        path.hyps.append(('forall', [k], ('implies', atom(z3.And(lo <= k, k < lo + val.ln)),
+                                          atom(z3.Select(out.arr, k) == z3.Select(val.arr, k - lo)))))
+        path.hyps.append(('forall', [k], ('implies', atom(z3.And(lo + val.ln <= k, k < out.ln)),
+                                          atom(z3.Select(out.arr, k) == z3.Select(l.arr, k - val.ln + (hi - lo))))))
+        return out
+
     def list_literal(self, items):
         if not items:
             return SList(z3.K(I, z3.RealVal(0)), z3.IntVal(0), 'real')
@@ -1275,6 +1290,16 @@ class Gen(object):
                     i = self.expr(base.slice, path)
                     self.index(outer, i, path, line)
                     path.env[base.value.id] = outer.with_row(i, val)
+                    return
+                if s.step is None and isinstance(base, ast.Subscript) and isinstance(base.value, ast.Name) \
+                        and isinstance(val, SList) and not val.nested():
+                    # X[i][lo:hi] = row   (Python splice semantics, bounds clamped as Python clamps them)
+                    outer = path.env[base.value.id]
+                    i = self.expr(base.slice, path)
+                    row = self.index(outer, i, path, line)
+                    if not isinstance(row, SList) or row.nested() or val.et != row.et:
+                        raise Unsupported('slice assignment')
+                    path.env[base.value.id] = outer.with_row(i, self.splice(row, s, val, path))
                     return
                 raise Unsupported('slice assignment')
             if isinstance(base, ast.Name):
